@@ -2,6 +2,10 @@
 package main
 
 import (
+	"encoding/json"
+	"fmt"
+	"time"
+
 	"verifharness/chainenv"
 	"verifharness/lib"
 )
@@ -11,11 +15,62 @@ func run(c *lib.Ctx) {
 		"replays add/del records into a stack and compares with hash-by-height for every height; last sequence must never decrease. non-trivial = run whose log contains >=1 delete record (a reorganisation)")
 	c.Assume("isRecordBlockSequence=true (default config)")
 	chainenv.Engine(c, "C26", c.N(2, 10), c.N(1, 6), c.N(48, 720), c.N(32, 400))
+	// rejected blocks on the way: the C27 scenarios (one mutated block at the tip or as a heavier side block that starts
+	// a reorganisation, then the genuine block and its child), judged here by the sequence-log oracle only
+	nInv := c.N(1, 6)
+	for ti := 0; ti < nInv; ti++ {
+		rng := c.CaseRng("invtree", ti)
+		tr := c.Child("invtree", rng.U64(), lib.ChildOpts{Timeout: 5 * time.Minute})
+		var tree chainenv.Tree
+		if tr.Died || tr.TimedOut || json.Unmarshal(tr.Out, &tree) != nil {
+			c.Inconclusive("invalid-block tree %d: builder child failed: %.300s", ti, tr.Stderr)
+			continue
+		}
+		var cases []chainenv.InvCase
+		for _, k := range chainenv.MutKinds {
+			for _, pos := range []string{"tip", "reorg"} {
+				cases = append(cases, chainenv.InvCase{Kind: k, Pos: pos, Broadcast: len(cases)%3 != 0, Seed: rng.U64(), Index: 100000 + ti*1000 + len(cases)})
+			}
+		}
+		workers := 14
+		chunks := make([][]chainenv.InvCase, workers)
+		for i, cs := range cases {
+			if c.Skip(cs.Index) {
+				continue
+			}
+			chunks[i%workers] = append(chunks[i%workers], cs)
+		}
+		lib.Parallel(workers, workers, func(w int) {
+			if len(chunks[w]) == 0 {
+				return
+			}
+			cr := c.Child("invalid", chainenv.InvReq{Tree: &tree, Cases: chunks[w]}, lib.ChildOpts{Timeout: 10 * time.Minute})
+			var rs []chainenv.InvRes
+			if cr.TimedOut || cr.Died || json.Unmarshal(cr.Out, &rs) != nil {
+				c.Inconclusive("invalid-block tree %d chunk %d failed: %.300s", ti, w, cr.Stderr)
+				return
+			}
+			for _, r := range rs {
+				if r.Skipped != "" {
+					continue
+				}
+				c.Case(fmt.Sprintf("rejected/%s/%s/%v/%s", r.Case.Kind, r.Case.Pos, r.Case.Broadcast, r.MutantHash[:8]), r.SeqDeletes > 0,
+					map[string]any{"rejected_block": r.Case.Kind, "pos": r.Case.Pos, "deliver_err": r.DeliverErr, "tip_after_mutant": r.TipAfter, "delete_records": r.SeqDeletes})
+				c.Count("runs_with_rejected_block", 1)
+				c.Count("reorg_block_removals", int64(r.SeqDeletes))
+				if len(r.SeqProblems) > 0 {
+					c.Violation(r.Case.Index, "sequence-log-after-rejected-block", r, "rejected %s block (%s): %s", r.Case.Kind, r.Case.Pos, lib.ShortList(r.SeqProblems, 4))
+				}
+			}
+		})
+	}
+	c.RequireEvents("runs_with_rejected_block", 10)
 	c.RequireEvents("reorg_block_removals", 5)
 	c.RequireEvents("seq_observations", 100)
 }
 
 func main() {
 	chainenv.RegisterChildren()
+	chainenv.RegisterInvalidChildren()
 	lib.Main("C26", "exploration", run)
 }
